@@ -6,6 +6,7 @@ CONSTANTS
  MaxSyncs = 8
  MaxPatches = 3
  MaxUpdaters = 2
+ InitSnapshot = TRUE
 INVARIANT SnapshotWithinLog
 INVARIANT UserDocIsSnapshot
 INVARIANT OneUpdaterAtATime
